@@ -566,7 +566,7 @@ func checkTCG(run *vk.Run, e *Exported, r *rand.Rand) {
 		})
 	}
 	for k := 0; k < 60; k++ {
-		ev := &eventlog.SP800155Event3{PlatformManufacturerID: r.Uint32(), ReferenceManifestGUID: eventlog.EfiGUID{UUID: uuid.New()},
+		ev := &eventlog.SP800155Event3{PlatformManufacturerID: r.Uint32(), ReferenceManifestGUID: eventlog.EfiGUID{UUID: func() uuid.UUID { u, _ := uuid.NewRandomFromReader(r); return u }()},
 			PlatformManufacturerStr: eventlog.ByteSizedCStr{Data: "Google, Inc."}, PlatformModel: eventlog.ByteSizedCStr{Data: strings.Repeat("m", r.Intn(20))},
 			PlatformVersion: eventlog.ByteSizedCStr{Data: ""}, FirmwareManufacturerStr: eventlog.ByteSizedCStr{Data: "fw"}, FirmwareManufacturerID: r.Uint32(),
 			FirmwareVersion: eventlog.ByteSizedCStr{Data: "2.7"}, RIMLocatorType: uint32(r.Intn(4)), RIMLocator: eventlog.Uint32SizedArray{Data: randBytes(r, 1+r.Intn(40))},
@@ -622,6 +622,16 @@ func checkTCG(run *vk.Run, e *Exported, r *rand.Rand) {
 				break
 			}
 		}
+		// the decoder takes the payload (what follows the 16-byte signature), nothing else: the signature
+		// followed by the payload is another byte string -- refused, or (the grammar is self-delimiting, so
+		// random field bytes can happen to parse) decoded as the event that those very bytes spell
+		if p, err := decode3(got); err == nil {
+			re, _ := p.MarshalToBytes()
+			want := append(append([]byte{}, eventlog.TcgSP800155Event3Signature[:]...), got...)
+			if len(re) > len(want) || !bytes.Equal(re, want[:len(re)]) || len(bytes.Trim(want[len(re):], "\x00")) != 0 {
+				viol("strictness:signature-prefix", "the signature followed by the payload is accepted where the payload alone is expected, as an event that these bytes do not spell")
+			}
+		}
 		// the same strictness when the event is the payload of a log record: a record whose Event3 body is
 		// malformed (cut inside a field, or followed by non-zero bytes) is refused, not kept as opaque data
 		record := func(payload []byte) []byte {
@@ -647,6 +657,21 @@ func checkTCG(run *vk.Run, e *Exported, r *rand.Rand) {
 			viol("strictness:record", "a TCG_PCR_EVENT2 record whose SP800-155 Event3 payload is followed by non-zero bytes is accepted")
 		}
 		run.Case(fmt.Sprintf("sp800155:%d", k), true)
+	}
+	// an event whose own first fields spell the signature bytes is an event like any other
+	{
+		var gid [16]byte
+		copy(gid[:], eventlog.TcgSP800155Event3Signature[4:])
+		ev := &eventlog.SP800155Event3{PlatformManufacturerID: le.Uint32(eventlog.TcgSP800155Event3Signature[0:4]), ReferenceManifestGUID: eventlog.EfiGUID{UUID: func() uuid.UUID { u, _ := oabi.FromEFIGUID(gid[:]); return u }()},
+			PlatformManufacturerStr: eventlog.ByteSizedCStr{Data: "G"}, FirmwareManufacturerStr: eventlog.ByteSizedCStr{Data: "fw"}, RIMLocator: eventlog.Uint32SizedArray{Data: []byte{1, 2, 3}}}
+		if enc, err := ev.MarshalToBytes(); err == nil {
+			if back, derr := decode3(enc[16:]); derr != nil {
+				viol("roundtrip", "an event whose manufacturer id and GUID spell the signature bytes does not decode its own encoding: %v", derr)
+			} else if re, _ := back.MarshalToBytes(); !bytes.Equal(re, enc) {
+				viol("roundtrip", "an event whose manufacturer id and GUID spell the signature bytes decodes to another event")
+			}
+		}
+		run.Case("sp800155:signature-lookalike", true)
 	}
 	// C strings: every payload row of Abi.tla's PartRows (acceptance, value, both round trips), alone
 	// and as the PlatformModel of a whole event
